@@ -330,7 +330,7 @@ static void budget_random(const args_t *a, long idx)
     static cb_t cb;
     budget_t b = {0, 1024, 0};
     rng_t r = rng_for(a->seed, 0xB0D7, (uint64_t)idx);
-    int nops = 5 + (int)rnd(&r, 40), i, big = (idx % 16 == 0);
+    int nops = 5 + (int)rnd(&r, 40), i, big = (idx % 17 == 0);   /* 17: coprime with the batch count, so big runs spread over all batches */
     char hist[300] = ""; size_t hl = 0;
     uint8_t fed[64];
     ++n_eval;
